@@ -79,7 +79,7 @@ func internalsOf(s any) reflect.Value {
 	return v.Elem()
 }
 
-// objContent: shape (key=member,…) | exceptions | mode | partial | catchall
+// objContent: shape (key=member,…) | exceptions | mode | partial | catchall | required keys
 func objContent(pool []member, s objSchema) string {
 	in := internalsOf(s)
 	var sh []string
@@ -106,7 +106,16 @@ func objContent(pool []member, s objSchema) string {
 	if c := s.Catchall(); c != nil {
 		ca = fmt.Sprint(memberIndex(pool, any(c)))
 	}
-	return fmt.Sprintf("%s|%s|%d|%d|%s", strings.Join(sh, ","), exc, mode, part, ca)
+	req := "-"
+	if rk := in.FieldByName("RequiredKeys"); rk.IsValid() && !rk.IsNil() { // since /repo 75cf747
+		var ks []string
+		for _, k := range rk.MapKeys() {
+			ks = append(ks, fmt.Sprint(keyID(k.String())))
+		}
+		sort.Strings(ks)
+		req = "{" + strings.Join(ks, ",") + "}"
+	}
+	return fmt.Sprintf("%s|%s|%d|%d|%s|%s", strings.Join(sh, ","), exc, mode, part, ca, req)
 }
 
 // objVerdicts: for each of the 32 subsets of {k1..k4,u} (bit i = key i present): "x" rejected, else the output key ids.
